@@ -38,6 +38,13 @@ def formulations(tier, refs_quick=("straight", "helix"), harsch=True):
                     for interp, p in INTERPS:
                         out.append({"interp": interp, "p": p, "mixed": mixed, "cons": cons, "nel": nel, "ref": ref,
                                     "mat": "Simo1986", "full_int": False})
+            if nel == 2 and ref == "helix":
+                # constraint sets whose impressed components are NOT a leading block of (0,1,2) / (3,4,5)
+                for cons in ([0, 4], [0, 2, 3]):
+                    for mixed in (False, True):
+                        for interp, p in INTERPS:
+                            out.append({"interp": interp, "p": p, "mixed": mixed, "cons": cons, "nel": nel, "ref": ref,
+                                        "mat": "Simo1986", "full_int": False})
     if tier != "quick":
         # extra letters of the thorough tier: full integration; second material (displacement-based only)
         for interp, p in INTERPS:
